@@ -10,17 +10,28 @@ import PV.Driver.Util
     `variant posix-script`: the native `pthread_mutex_*` calls are scripted: `new C`, `lock C`, `try C`,
                 `unlock C`, `free C` where C is the code the native call returns; answer
                 `<ret> <native function called | ->`.
+    `lock K`, `try K`, `unlock K` (K = 0..3): the same on one of four independent objects (object 0 is the one
+                the index-free ops use); K = -1 is the NULL argument: answer `0 null` (NULL guard of every function,
+                required by the translator).
+    `tother K`: a second thread calls trylock on object K once and unlocks again when it got the lock.
+    `contend2 K` (main thread holds K): two more threads call lock; `blocks` | `acquired`.
     Model column: the machines of `PV.Model.Locks` stepped through `interp` / `MutexFn.ret` of the generated
     records.  Spec column (`SPECDIFF`): an abstract lock (free / held). -/
 namespace PV.Driver.Locks
 open PV.Atomics PV.Locks PV.Generated.Atomics
 
-structure St where
-  variant : String := ""
+/-- one lock object -/
+structure Obj where
   word : W32 := 0                 -- c11 / sync: the lock word
   owner : Option Tid := none      -- sim / posix: owner of the native mutex
   specHeld : Bool := false        -- spec: is the lock held (by the main thread)
+
+structure St where
+  variant : String := ""
+  objs : Array Obj := #[{}, {}, {}, {}]   -- independent objects: an op on one never touches another
   isNull : Bool := true           -- posix-script: p_mutex_new failed / not yet called
+
+def nObj : Nat := 4
 
 def b01 (b : Bool) : String := if b then "1" else "0"
 
@@ -37,6 +48,84 @@ def fmtSpin (r : Option (W32 × Bool)) : String :=
   | some (w, b) => b01 b ++ " " ++ toString w.toNat
   | none => "blocks"
 
+/-- one op on one object: (answer line, object afterwards, stop) -/
+def stepObj (variant : String) (o : Obj) (op : String) : Option (String × Obj × Bool) :=
+  match spinOf variant, mutexOf variant with
+  | some p, _ =>
+    match op with
+    | "lock" =>
+      let r := lockAlone p 4 o.word
+      let sp := if o.specHeld then "blocks" else "1 1"
+      some (withSpec (fmtSpin r) sp, { o with word := (r.map (·.1)).getD o.word, specHeld := true }, false)
+    | "try" =>
+      let r := tryAlone p o.word
+      let sp := if o.specHeld then "0 1" else "1 1"
+      some (withSpec (fmtSpin r) sp, { o with word := (r.map (·.1)).getD o.word, specHeld := true }, false)
+    | "unlock" =>
+      let r := unlockAlone p o.word
+      some (withSpec (fmtSpin r) "1 0", { o with word := (r.map (·.1)).getD o.word, specHeld := false }, false)
+    | "contend" | "contend2" =>
+      -- the other threads' lock calls while the main thread holds: do they return?
+      let r := lockAlone p 4 o.word
+      let m := match r with
+        | some _ => "acquired"
+        | none => "blocks"
+      -- afterwards: main unlocks, every other thread locks and unlocks in turn
+      let w1 := ((unlockAlone p o.word).map (·.1)).getD o.word
+      let w2 := ((lockAlone p 4 w1).map (·.1)).getD w1
+      let w3 := ((unlockAlone p w2).map (·.1)).getD w2
+      let w4 := if op = "contend2" then
+          let w5 := ((lockAlone p 4 w3).map (·.1)).getD w3
+          ((unlockAlone p w5).map (·.1)).getD w5
+        else w3
+      some (withSpec m (if o.specHeld then "blocks" else "acquired"), { o with word := w4, specHeld := false }, false)
+    | "tother" =>
+      -- a second thread: one trylock; on success it unlocks again
+      let sp := if o.specHeld then "0 1" else "1 0"
+      match tryAlone p o.word with
+      | some (w1, b) =>
+        let w2 := if b then ((unlockAlone p w1).map (·.1)).getD w1 else w1
+        some (withSpec (b01 b ++ " " ++ toString w2.toNat) sp, { o with word := w2 }, false)
+      | none => some (withSpec "blocks" sp, o, false)      -- record not evaluable (as `try`)
+    | _ => none
+  | none, some m =>
+    let call (f : MutexFn) (t : Tid) (ow : Option Tid) := wrapperAlone EBUSY f ow t
+    match op with
+    | "lock" =>
+      match call m.lock 0 o.owner with
+      | some (r, _, o') => some (withSpec (b01 r) "1", { o with owner := o', specHeld := true }, false)
+      | none => some (withSpec "blocks" (if o.specHeld then "blocks" else "1"), o, false)
+    | "try" =>
+      match call m.trylock 0 o.owner with
+      | some (r, _, o') => some (withSpec (b01 r) (if o.specHeld then "0" else "1"), { o with owner := o', specHeld := true }, false)
+      | none => some ("no-model SPECDIFF ?", o, false)
+    | "unlock" =>
+      match call m.unlock 0 o.owner with
+      | some (r, _, o') => some (withSpec (b01 r) "1", { o with owner := o', specHeld := false }, false)
+      | none => some ("ub", o, true)
+    | "contend" | "contend2" =>
+      let mline := match call m.lock 1 o.owner with
+        | some _ => "acquired"
+        | none => "blocks"
+      some (withSpec mline (if o.specHeld then "blocks" else "acquired"), { o with owner := none, specHeld := false }, false)
+    | "tother" =>
+      match call m.trylock 1 o.owner with
+      | some (r, _, o') =>
+        -- thread 1 unlocks again when its wrapper returned TRUE
+        let o2 := if r then ((call m.unlock 1 o').map (·.2.2)).getD o' else o'
+        some (withSpec (b01 r) (if o.specHeld then "0" else "1"), { o with owner := o2 }, false)
+      | none => some ("no-model SPECDIFF ?", o, false)
+    | _ => none
+  | none, none => none
+
+def onObj (s : St) (k : Nat) (op : String) : IO (St × Bool) := do
+  match s.objs[k]? with
+  | none => IO.println "bad-op"; return (s, false)
+  | some o =>
+    match stepObj s.variant o op with
+    | none => IO.println "bad-op"; return (s, false)
+    | some (line, o', stop) => IO.println line; return ({ s with objs := s.objs.set! k o' }, stop)
+
 def step (s : St) (toks : List String) : IO (St × Bool) := do
   match toks with
   | ["variant", v] =>
@@ -45,60 +134,8 @@ def step (s : St) (toks : List String) : IO (St × Bool) := do
     else IO.println "bad-op"; return (s, false)
   | ["reset"] => IO.println "ok"; return ({ variant := s.variant }, false)
   | [op] =>
-    match spinOf s.variant, mutexOf s.variant with
-    | some p, _ =>
-      match op with
-      | "lock" =>
-        let r := lockAlone p 4 s.word
-        let sp := if s.specHeld then "blocks" else "1 1"
-        IO.println (withSpec (fmtSpin r) sp)
-        return ({ s with word := (r.map (·.1)).getD s.word, specHeld := true }, false)
-      | "try" =>
-        let r := tryAlone p s.word
-        let sp := if s.specHeld then "0 1" else "1 1"
-        IO.println (withSpec (fmtSpin r) sp)
-        return ({ s with word := (r.map (·.1)).getD s.word, specHeld := true }, false)
-      | "unlock" =>
-        let r := unlockAlone p s.word
-        IO.println (withSpec (fmtSpin r) "1 0")
-        return ({ s with word := (r.map (·.1)).getD s.word, specHeld := false }, false)
-      | "contend" =>
-        -- the second thread's lock call while the main thread holds: does it return?
-        let r := lockAlone p 4 s.word
-        let m := match r with
-          | some _ => "acquired"
-          | none => "blocks"
-        IO.println (withSpec m (if s.specHeld then "blocks" else "acquired"))
-        -- afterwards: main unlocks, second thread locks and unlocks
-        let w1 := ((unlockAlone p s.word).map (·.1)).getD s.word
-        let w2 := ((lockAlone p 4 w1).map (·.1)).getD w1
-        let w3 := ((unlockAlone p w2).map (·.1)).getD w2
-        return ({ s with word := w3, specHeld := false }, false)
-      | _ => IO.println "bad-op"; return (s, false)
-    | none, some m =>
-      let call (f : MutexFn) (t : Tid) (o : Option Tid) := wrapperAlone EBUSY f o t
-      match op with
-      | "lock" =>
-        match call m.lock 0 s.owner with
-        | some (r, _, o') => IO.println (withSpec (b01 r) "1"); return ({ s with owner := o', specHeld := true }, false)
-        | none => IO.println (withSpec "blocks" (if s.specHeld then "blocks" else "1")); return (s, false)
-      | "try" =>
-        match call m.trylock 0 s.owner with
-        | some (r, _, o') =>
-          IO.println (withSpec (b01 r) (if s.specHeld then "0" else "1")); return ({ s with owner := o', specHeld := true }, false)
-        | none => IO.println "no-model SPECDIFF ?"; return (s, false)
-      | "unlock" =>
-        match call m.unlock 0 s.owner with
-        | some (r, _, o') => IO.println (withSpec (b01 r) "1"); return ({ s with owner := o', specHeld := false }, false)
-        | none => IO.println "ub"; return (s, true)
-      | "contend" =>
-        let mline := match call m.lock 1 s.owner with
-          | some _ => "acquired"
-          | none => "blocks"
-        IO.println (withSpec mline (if s.specHeld then "blocks" else "acquired"))
-        return ({ s with owner := none, specHeld := false }, false)
-      | _ => IO.println "bad-op"; return (s, false)
-    | none, none => IO.println "bad-op"; return (s, false)
+    if op = "lock" ∨ op = "try" ∨ op = "unlock" ∨ op = "contend" then onObj s 0 op
+    else IO.println "bad-op"; return (s, false)
   | [op, c] =>
     match s.variant == "posix-script", c.toInt? with
     | true, some code =>
@@ -119,6 +156,14 @@ def step (s : St) (toks : List String) : IO (St × Bool) := do
         IO.println (if s.isNull then "- -" else "- pthread_mutex_destroy")
         return ({ s with isNull := true }, false)
       | _ => IO.println "bad-op"; return (s, false)
+    | false, some k =>
+      if (spinOf s.variant).isNone ∧ (mutexOf s.variant).isNone then IO.println "bad-op"; return (s, false)
+      else if k = -1 ∧ (op = "lock" ∨ op = "try" ∨ op = "unlock") then
+        -- NULL argument: every function returns FALSE before touching anything
+        IO.println "0 null"; return (s, false)
+      else if 0 ≤ k ∧ k < nObj ∧ (op = "lock" ∨ op = "try" ∨ op = "unlock" ∨ op = "tother" ∨ op = "contend2") then
+        onObj s k.toNat op
+      else IO.println "bad-op"; return (s, false)
     | _, _ => IO.println "bad-op"; return (s, false)
   | _ => IO.println "bad-op"; return (s, false)
 
